@@ -4,8 +4,10 @@
    (msg::decode, Connless::decode, SnapObj::decode_obj) followed by `encode` of the
    decoded value:
 
-     {k: "ev", src, entry: msg|connless|obj, ord, uuid, data, r: ok|err|panic,
-      e, w, enc: ok|panic|cap|none, re, sec, tname}
+     {k: "ev", n, src, entry: msg|system|game|tsystem|tgame|connless|obj|tobj, ord, uuid, data,
+      r: ok|err|panic, e, w, enc: ok|panic|cap|none, re, sec, tname, idok}
+   (system/game = inherent System::decode / Game::decode, t* = the same through the traits of
+   gamenet/common; idok = obj_type_id() of a decoded object is the identifier it was decoded with)
      {k: "bulk", n, count, ok, err, panic, hang}   outcomes of inputs that are not logged one by one
    (n = position in the trace: a dropped event is noticed)
 
@@ -29,7 +31,7 @@ SpecReject(x)    == x.r = "err" /\ x.e \in {"range", "cc", "intstr", "unknown_id
 
 PropOK(ev, x) ==
   /\ ev.r \in {"ok", "err"}
-  /\ SpecCanon(ev, x) => ev.r = "ok" /\ ev.w = <<>> /\ ev.enc = "ok" /\ ev.re = ev.data
+  /\ SpecCanon(ev, x) => ev.r = "ok" /\ ev.w = <<>> /\ ev.enc = "ok" /\ ev.re = ev.data /\ ev.idok
   /\ SpecReject(x) => ev.r = "err"
   /\ (x.r = "ok" /\ x.enc /\ ev.r = "ok") => ev.enc # "panic"
 
